@@ -42,6 +42,7 @@ class Executor(CallMixin, EvalMixin, ExprMixin, StmtMixin):
         self.current_props = []
         self.ob_counter = 0
         self.numbered = set()
+        self.pending_facts = []     # ground axiom instances to be assumed in every obligation of the current function
 
     def note_assumption(self, s): self.assumptions.add(s)
 
@@ -49,6 +50,9 @@ class Executor(CallMixin, EvalMixin, ExprMixin, StmtMixin):
     def oblige(self, st, goal, kind, node, expect="unsat"):
         if self.quiet or self.spec: return
         if z3.is_true(goal): return
+        if self.pending_facts:
+            for f in self.pending_facts:
+                if not any(f.eq(g) for g in st.pc): st.pc.append(f)
         self.ob_counter += 1
         line = getattr(node, "lineno", 0) if node is not None else 0
         name = "%s#%s#L%d#%d" % (self.current_qual, kind, line, self.ob_counter)
@@ -145,6 +149,8 @@ class Executor(CallMixin, EvalMixin, ExprMixin, StmtMixin):
             d = a[0]
             if isinstance(d.ty, T.Opt): d = SV(d.ty.t, T.opt_val(d.ty, d.t))
             return SV(T.Set(d.ty.k), T.dict_dom(d.ty, d.t))
+        if name == "joined":
+            return SV(T.Str, self.joined(a[0].t))
         if name == "is_perm":
             return SV(T.Bool, z3.Or(self.is_perm(a[0].ty, a[0].t, a[1].t), a[0].t == a[1].t))
         if name == "abs_real":
@@ -292,7 +298,10 @@ class Executor(CallMixin, EvalMixin, ExprMixin, StmtMixin):
         self.number_loops(fnode, qual)
         for k, v in c.loops.items(): self.loop_specs[(qual, k)] = v
         self.declared_locals = dict(c.ghost.get("__locals__", {})) if isinstance(c.ghost.get("__locals__"), dict) else {}
+        self.pending_facts = []
         st = self.initial_state(c, fnode, module, cls)
+        for fn_ in c.axioms_of:
+            for ax in R.SPECFUNS[fn_].axioms: st.assume(self.spec_eval(ax, st, c))
         # preconditions
         for r in c.requires:
             st.assume(self.spec_eval(r, st, c))
